@@ -140,6 +140,16 @@ Theorem C14_parse_lz_nodst : forall o lz s, lz_dst_saved lz = 0 -> parse_lz o lz
 Proof. exact parse_lz_nodst. Qed.
 Print Assumptions C14_parse_lz_nodst.
 
+(* token-shape invariant of the lexer (audit): every token is a single character, or letters / digits / '.' / ','
+   with no letter next to a digit (tok_good, parse/LexShape.v).  On tokens of this shape Python's
+   int() / float() / Decimal() accept exactly digits+ [. digits*] and the words inf / nan / infinity, which is
+   what the acceptance predicates of parse/Prim.v model (no sign, underscore, exponent or padding forms). *)
+From V Require Import parse.LexShape.
+
+Theorem C14_lex_token_shape : forall s, Forall (fun p => tok_good p = true) (timelex s).
+Proof. exact lex_token_shape_lemma. Qed.
+Print Assumptions C14_lex_token_shape.
+
 (* ------------------------------------------------------------------------------------------------
    Model <-> source (iso builder, notes/parse_gen.md).  coq/gen/ParseGen.v is regenerated from
    /repo/src/dateutil/parser/_parser.py by the fail-closed translator harness/gen_parse.py on every run; each
